@@ -799,17 +799,13 @@ class Model:
         #normalize the arg
 
         normalized_arg= fp.normalize(arg, self.dt, self.starttime, max(fp.scale(self.starttime), fp.scale(self.dt)))
-        try:
-            mymemo = self.memo[equation]
-        except:
-            # In case the equation does not exist in memo
-            self.memo[equation] = {}
-            mymemo = self.memo[equation]
+        # setdefault makes the memo single-valued when several simulation threads miss the same key at once:
+        # whoever stores first wins and every thread returns (and consumes) that stored value
+        mymemo = self.memo.setdefault(equation, {})
         if normalized_arg in mymemo.keys():
             return mymemo[normalized_arg]
         else:
-            result = self.equations[equation](normalized_arg)
-            mymemo[normalized_arg] = result
+            result = mymemo.setdefault(normalized_arg, self.equations[equation](normalized_arg))
 
         return result
 
